@@ -216,6 +216,9 @@ def run(eng: Engine, ck: Check):
             ck.ob('R-C08-GATE', h, c, f'{h.name}: share lookup is made for the requesting user (connection.username, directly or through a local)',
                   f'{connp}.username' in us, unparse(c)[:70] + f' -> {us}', construct=f'{h.name} {call_name(c)} user')
 
+    from . import defs
+    defs.shared_item_lookups(eng, ck, 'R-C08-GATE')
+
     # ---- R-C08-CASE: needle and haystack agree on case normalisation
     tests = []
     for q_ in eng.scope(q):
@@ -248,13 +251,45 @@ def run(eng: Engine, ck: Check):
               construct='excluded phrase path lowered')
         # a hit must drop the item: the test leads to break (for/else) or continue, not to keeping it
         st = enclosing_stmt(t)
-        ok = isinstance(st, ast.If) and st.test is t and is_terminating(st.body) or (isinstance(st, ast.If) and any(isinstance(x, (ast.Break, ast.Continue)) for x in st.body))
+        comp = next((a_ for a_ in ancestors(t) if isinstance(a_, (ast.GeneratorExp, ast.ListComp))), None)
+        if comp is not None and any(t is i_ or any(t is y_ for y_ in ast.walk(i_)) for g_ in comp.generators for i_ in g_.ifs) or (comp is not None and comp.elt is t):
+            # the same search as an expression: `any(<test> for p in phrases)` / `next((p for p in phrases if <test>), None)`;
+            # the item may be kept only where that expression says "no hit"
+            user = parent(comp)
+            kind = call_name(user) if isinstance(user, ast.Call) and user.args and user.args[0] is comp else None
+            if kind == 'next' and not (len(user.args) == 2 and is_none_const(user.args[1]) and comp.elt is not t):
+                kind = None
+            if kind == 'any' and comp.elt is not t:
+                kind = None
+            item_loop = next((a_ for a_ in ancestors(st) if isinstance(a_, ast.For) and isinstance(a_.target, ast.Name)), None)
+            keeps = [x for x in calls_in(item_loop) if call_name(x) in ('add', 'append') and x.args and unparse(x.args[0]) == item_loop.target.id] if item_loop is not None else []
+            ok = kind in ('any', 'next') and bool(keeps)
+            for k_ in keeps:
+                hit_src = unparse(expand_aliases(q, user))
+                no_hit = False
+                for e_, pol_, _ in expanded_guards(eng, q, k_):
+                    a_ = cmp_atom(e_)
+                    if kind == 'any' and unparse(e_) == hit_src and not pol_:
+                        no_hit = True
+                    if kind == 'next' and a_ and a_[0] == 'is' and unparse(a_[1]) == hit_src and is_none_const(a_[2]) and pol_:
+                        no_hit = True
+                ok = ok and no_hit
+        else:
+            ok = isinstance(st, ast.If) and st.test is t and is_terminating(st.body) or (isinstance(st, ast.If) and any(isinstance(x, (ast.Break, ast.Continue)) for x in st.body))
         ck.ob('R-C08-CASE', q, t, 'an item containing an excluded phrase is dropped', bool(ok), 'hit does not skip the item', construct='excluded phrase drops')
     q = q_outer
 
     # ---- R-C08-REEVAL
     ms = eng.func(TM, 'TransferManager.manage_shares_changed')
-    ev = eng.func(TM, 'TransferManager._evaluate_aborted_state')
+    # the evaluation of one upload: the helper manage_shares_changed calls for `<change>, <reason> = self.<helper>(upload)`, or
+    # manage_shares_changed itself when the evaluation is written in place
+    mr = [(n_, {'sc': unparse(n_.targets[0].elts[0]), 'ar': unparse(n_.targets[0].elts[1]), 'h': n_.value.func.attr}) for n_ in walk_local(ms.node)
+          if isinstance(n_, ast.Assign) and isinstance(n_.targets[0], ast.Tuple) and len(n_.targets[0].elts) == 2 and isinstance(n_.value, ast.Call) and
+          isinstance(n_.value.func, ast.Attribute) and unparse(n_.value.func.value) == 'self' and len(n_.value.args) == 1 and
+          eng.repo.find_func(TM, f'TransferManager.{n_.value.func.attr}') is not None and
+          any(isinstance(r_.value, ast.Tuple) and len(r_.value.elts) == 2 for r_ in walk_local(eng.repo.find_func(TM, f'TransferManager.{n_.value.func.attr}').node) if isinstance(r_, ast.Return) and r_.value is not None)]
+    mr = [x for x in mr if x[1]['h'] != '_get_queued_transfers']
+    ev = eng.repo.find_func(TM, f'TransferManager.{mr[0][1]["h"]}') if len(mr) == 1 else ms
     ck.visited(ms)
     ck.visited(ev)
     src = unparse(ms.node)
@@ -282,9 +317,13 @@ def run(eng: Engine, ck: Check):
             ok = 'transfer.username' in unparse(f.node) and 'not ' not in unparse(f.node)
         ck.ob('R-C08-REEVAL', f or ev, (f or ev).node, f'condition {nm} tests {needle}{" " + mem if mem else ""} for the upload\'s user', bool(ok),
               unparse(f.node)[:120] if f else 'missing', construct=f'condition {nm}')
-    # names discovered from the return value: return (<should change>, <reason>)
-    evr = [n for n in walk_local(ev.node) if isinstance(n, ast.Return) and isinstance(n.value, ast.Tuple) and len(n.value.elts) == 2]
-    SC, AR = (unparse(evr[0].value.elts[0]), unparse(evr[0].value.elts[1])) if len(evr) == 1 else ('should_change', 'abort_reason')
+    # names discovered from the definition `<should change> = <aborted> != bool(<reason>)`
+    scd = pfind(ev.node, '$sc = $a != bool($ar)') + pfind(ev.node, '$sc = $a != ($ar is not None)')
+    SC, AR = (scd[0][1]['sc'], scd[0][1]['ar']) if len(scd) == 1 else ('should_change', 'abort_reason')
+    if ev is not ms:
+        evr = [n for n in walk_local(ev.node) if isinstance(n, ast.Return)]
+        ck.ob('R-C08-REEVAL', ev, ev.node, 'the evaluation returns (should change, reason)', len(evr) == 1 and isinstance(evr[0].value, ast.Tuple) and
+              [unparse(x) for x in evr[0].value.elts] == [SC, AR], f'{[unparse(r_) for r_ in evr]}', construct='evaluation result')
     sc = [n for n in walk_local(ev.node) if isinstance(n, ast.Assign) and unparse(n.targets[0]) == SC]
     ok = len(sc) == 1 and isinstance(sc[0].value, ast.Compare) and isinstance(sc[0].value.ops[0], ast.NotEq)
     ab = None
@@ -300,8 +339,7 @@ def run(eng: Engine, ck: Check):
     ck.ob('R-C08-REEVAL', ev, ev.node, '`aborted` means state == ABORTED', ab is not None and enum_members_in(ab) == {'ABORTED'} and
           isinstance(ab, ast.Compare) and isinstance(ab.ops[0], ast.Eq), unparse(ab), construct='aborted definition')
     # in manage_shares_changed:  <sc>, <reason> = self._evaluate_aborted_state(upload)
-    mr = pfind(ms.node, '$sc, $ar = self._evaluate_aborted_state($_)')
-    SC2, AR2 = (mr[0][1]['sc'], mr[0][1]['ar']) if len(mr) == 1 else ('should_change', 'abort_reason')
+    SC2, AR2 = (mr[0][1]['sc'], mr[0][1]['ar']) if len(mr) == 1 else (SC, AR)
     qs = [c for c in calls_in(ms.node) if call_name(c) == 'queue' and mentions_attr(c.func.value, 'state')]
     abs_ = [c for c in calls_in(ms.node) if call_name(c) == 'abort' and mentions_attr(c.func.value, 'state')]
     ck.floor('R-C08-REEVAL.actions', min(len(qs), len(abs_)), 1)
